@@ -112,7 +112,8 @@ def who_reads(prog, rep, rule, field, readers, what):
                 i, d = eff[0]
                 rep.fail(rule, key(rule, f, 'effect-%s' % field[1]), where(i), 'code controlled by %s in %s() %s: %s' % (field[1], f.name, d, what))
             else:
-                rep.ok(rule, '%s reads %s@%s: controls %d instructions, effects: stderr / own locals only' % (f.name, field[1], x.line, len(region)))
+                rep.ok(rule, '%s reads %s@%s: controls %d instructions, effects: %s' % (f.name, field[1], x.line, len(region),
+                       'the reviewed ones of this reader, else stderr / own locals only' if allowed else 'stderr / own locals only'))
     return n
 
 NOWARN_READERS = {'line_warning': 'the warning printer', 'flexend': 'the -v statistics printer'}
